@@ -8,6 +8,9 @@ import GLua.Proofs.CompileWfVerifier
 namespace GLua.CompileWf
 open GLua GLua.Compile GLua.MiniVM GLua.Verifier GLua.Generated GLua.Proofs.Verifier
 
+variable [NumStruct]
+set_option linter.unusedSectionVars false
+
 /-- what the patched instruction `x` at index `pc` must satisfy: `M` = highest register (NumUsedRegisters - 1),
     `N` = code length, `cs` = constant pool, `code` = the patched code (for MOVEN's followers). -/
 def XI (cs : List Konst) (M N : Nat) (code : List Instr) (pc : Nat) : Instr → Prop
@@ -27,6 +30,10 @@ def XI (cs : List Konst) (M N : Nat) (code : List Instr) (pc : Nat) : Instr → 
   | .nop _ => pc + 1 < N
   | .eval a id => a ≤ M ∧ (findIdx cs (gname id)).isSome = true ∧ pc + 1 < N
   | .setg a id => a ≤ M ∧ (findIdx cs (gname id)).isSome = true ∧ pc + 1 < N
+  | .arith _ a b c => a ≤ M ∧ RKR cs.length M b ∧ RKR cs.length M c ∧ pc + 1 < N
+  | .unm a b => a ≤ M ∧ b ≤ M ∧ pc + 1 < N
+  | .len a b => a ≤ M ∧ b ≤ M ∧ pc + 1 < N
+  | .concat a b c => a ≤ M ∧ b ≤ c ∧ c ≤ M ∧ pc + 1 < N
   | .ret a b => 1 ≤ b ∧ (2 ≤ b → a + b ≤ M + 2)
   | .abc op a b c => op = OP_VARARG ∧ a = 0 ∧ 2 ≤ b ∧ b ≤ M + 1 ∧ c = 0 ∧ pc + 1 < N
 
@@ -37,11 +44,21 @@ structure Cert (cs : List Konst) (code : List Instr) (nregs : Nat) : Prop where
   xi : ∀ (pc : Nat) (x : Instr), code[pc]? = some x → XI cs (nregs - 1) code.length code pc x
   last : ∃ a b, code[code.length - 1]? = some (.ret a b)
 
+/-- the opcode of an arithmetic operator (the `match` inside `encode`) -/
+def arithOpc : ArithOp → Nat
+  | .add => OP_ADD | .sub => OP_SUB | .mul => OP_MUL | .div => OP_DIV | .mod => OP_MOD | .pow => OP_POW
+
+theorem arithOpc_range (op : ArithOp) : 15 ≤ arithOpc op ∧ arithOpc op ≤ 20 := by cases op <;> decide
+
+theorem encode_arith (cs : List Konst) (op : ArithOp) (a b c : Nat) :
+    encode cs (.arith op a b c) = wordABC (arithOpc op) a b c := by cases op <;> rfl
+
 /-- the opcode field of an encoded instruction -/
 def opOf : Instr → Nat
   | .move _ _ => 0 | .moven _ _ _ => 1 | .loadk _ _ => 2 | .loadbool _ _ _ => 3 | .loadnil _ _ => 4
   | .not _ _ => 22 | .test _ _ _ => 29 | .testset _ _ _ => 30 | .eq _ _ _ => 26 | .lt _ _ _ => 27 | .le _ _ _ => 28
   | .jmp _ => 25 | .nop _ => 41 | .eval _ _ => 6 | .setg _ _ => 9 | .ret _ _ => 33 | .abc op _ _ _ => op
+  | .arith op _ _ _ => arithOpc op | .unm _ _ => 21 | .len _ _ => 23 | .concat _ _ _ => 24
 
 theorem dec_op (cs : List Konst) (x : Instr) (h : opOf x < 64) : (decode (encode cs x)).op = opOf x := by
   cases x <;> simp only [opOf] at h ⊢ <;> simp only [encode]
@@ -51,12 +68,14 @@ theorem dec_op (cs : List Konst) (x : Instr) (h : opOf x < 64) : (decode (encode
   case eval => exact (dec_ABx _ _ _ (by decide)).1
   case setg => exact (dec_ABx _ _ _ (by decide)).1
   case abc => exact (dec_ABC _ _ _ _ h).1
-  all_goals exact (dec_ABC _ _ _ _ (by decide)).1
+  case arith op a b c => cases op <;> exact (dec_ABC _ _ _ _ (by decide)).1
+  all_goals first | exact (dec_ABC _ _ _ _ (by decide)).1 | (simp only [encode]; exact (dec_ABC _ _ _ _ (by decide)).1)
 
 theorem xi_op {cs : List Konst} {M N : Nat} {code : List Instr} {pc : Nat} {x : Instr} (h : XI cs M N code pc x) :
     opOf x < 64 ∧ opOf x ≠ 39 ∧ opOf x ≠ 37 := by
   cases x <;> simp only [opOf] <;> (try decide)
   case abc op a b c => simp only [XI] at h; rw [h.1]; decide
+  case arith op a b c => have := arithOpc_range op; omega
 
 /-- RK operand of the certificate → RK operand of the verifier -/
 theorem rkGood_of {p : Proto} {n M x : Nat} (h : RKR n M x) (hM : M < p.numRegs) (hM2 : M < 256) (hn : n = p.consts.size) :
@@ -231,6 +250,25 @@ theorem cert_wf (n : Nat) (cs : List Konst) (code : List Instr) (nregs : Nat) (h
         obtain ⟨rfl, rfl, hb2, hbM, rfl, hn⟩ := hxi
         have hd := dec_ABC OP_VARARG 0 b 0 (by decide)
         exact stepOk_of (step_vararg (w := wordABC OP_VARARG 0 b 0) hw hd.1) (one hn)
+      case arith op a b c =>
+        have hr := arithOpc_range op
+        have hd := dec_ABC (arithOpc op) a b c (by omega)
+        rw [encode_arith] at hw
+        obtain ⟨hb1, hb2⟩ := rkGood_of (p := p) hxi.2.1 hM hM2 hks.symm
+        obtain ⟨hc1, hc2⟩ := rkGood_of (p := p) hxi.2.2.1 hM hM2 hks.symm
+        exact stepOk_of (step_arith hw (by rw [hd.1]; exact hr) (by rw [hd.2.2.1, hb1]; exact hb2)
+          (by rw [hd.2.2.2, hc1]; exact hc2)) (one hxi.2.2.2)
+      case unm a b =>
+        have hd := dec_ABC OP_UNM a b 0 (by decide)
+        exact stepOk_of (step_unm_len (w := wordABC OP_UNM a b 0) hw (Or.inl hd.1) (by rw [hd.2.2.1]; omega)
+          (by rw [hd.2.2.1]; omega)) (one hxi.2.2)
+      case len a b =>
+        have hd := dec_ABC OP_LEN a b 0 (by decide)
+        exact stepOk_of (step_unm_len (w := wordABC OP_LEN a b 0) hw (Or.inr hd.1) (by rw [hd.2.2.1]; omega)
+          (by rw [hd.2.2.1]; omega)) (one hxi.2.2)
+      case concat a b c =>
+        have hd := dec_ABC OP_CONCAT a b c (by decide)
+        exact stepOk_of (step_concat (w := wordABC OP_CONCAT a b c) hw hd.1 (by rw [hd.2.2.2]; omega)) (one hxi.2.2.2)
     · -- hyg
       cases x <;> simp only [XI] at hxi
       case move a b =>
@@ -329,5 +367,23 @@ theorem cert_wf (n : Nat) (cs : List Konst) (code : List Instr) (nregs : Nat) (h
         refine hyg_vararg (w := wordABC OP_VARARG 0 b 0) hw hd.1 ?_
         rw [hd.2.1, hd.2.2.1]
         refine ⟨fun h => by omega, fun h => by omega, fun _ => by omega⟩
+      case arith op a b c =>
+        have hr := arithOpc_range op
+        have hd := dec_ABC (arithOpc op) a b c (by omega)
+        rw [encode_arith] at hw
+        obtain ⟨hb1, hb2⟩ := rkGood_of (p := p) hxi.2.1 hM hM2 hks.symm
+        obtain ⟨hc1, hc2⟩ := rkGood_of (p := p) hxi.2.2.1 hM hM2 hks.symm
+        exact hyg_arith hw (by rw [hd.1]; exact hr) (by rw [hd.2.1]; omega) (by rw [hd.2.2.1, hb1]; exact hb2)
+          (by rw [hd.2.2.2, hc1]; exact hc2)
+      case unm a b =>
+        have hd := dec_ABC OP_UNM a b 0 (by decide)
+        exact hyg_unm_len (w := wordABC OP_UNM a b 0) hw (Or.inl hd.1) (by rw [hd.2.1]; omega) (by rw [hd.2.2.1]; omega)
+      case len a b =>
+        have hd := dec_ABC OP_LEN a b 0 (by decide)
+        exact hyg_unm_len (w := wordABC OP_LEN a b 0) hw (Or.inr hd.1) (by rw [hd.2.1]; omega) (by rw [hd.2.2.1]; omega)
+      case concat a b c =>
+        have hd := dec_ABC OP_CONCAT a b c (by decide)
+        exact hyg_concat (w := wordABC OP_CONCAT a b c) hw hd.1 (by rw [hd.2.1]; omega)
+          (by rw [hd.2.2.1, hd.2.2.2]; omega) (by rw [hd.2.2.2]; omega)
 
 end GLua.CompileWf
